@@ -192,9 +192,10 @@ def cases(rng, tier, shard, nshards, phase):
             yield {"stream": st, "blocs": blocs, "kind": kind, "sign": sign, "which": rng.randrange(nb),
                    "expect": "accept" if kind in ("props-1e-10", "cohesion-1e-10", "valid") else "ValueError"}
         elif st == "combine":
-            kind = rng.choice(["overlap", "disjoint", "props-1e-7", "props-1e-10"])
+            kind = rng.choice(["overlap", "overlap-zero-one", "overlap-zero-both", "disjoint", "disjoint-with-zeros",
+                               "props-1e-7", "props-1e-10"])
             yield {"stream": st, "kind": kind, "sign": rng.choice([1, -1]),
-                   "expect": "accept" if kind in ("disjoint", "props-1e-10") else "ValueError"}
+                   "expect": "accept" if kind in ("disjoint", "disjoint-with-zeros", "props-1e-10") else "ValueError"}
         else:
             spec = gen.gen_ranked_spec(rng, nmin=2, nmax=5, ties=False, partial=True, bmin=0, bmax=4)
             kind = rng.choice(["dup", "nodup"])
@@ -330,13 +331,28 @@ def run_case(vk, case):
         return {"req": req, "expect": expect, "monitors": monitors, "tags": tags}
     if st == "combine":
         kind = case["kind"]
-        a = PreferenceInterval({"A": 0.6, "B": 0.4})
-        b = PreferenceInterval({"C": 0.5, ("A" if kind == "overlap" else "D"): 0.5})
+        ia = {"A": 0.6, "B": 0.4}
+        ib = {"C": 0.5, ("A" if kind == "overlap" else "D"): 0.5}
+        sets = [[0, 1], [2, 0 if kind == "overlap" else 3]]
+        if kind == "overlap-zero-one":       # shared candidate E has zero support in one interval only
+            ia["E"] = 0.0
+            ib["E"] = 0.3
+            sets = [[0, 1, 4], [2, 3, 4]]
+        elif kind == "overlap-zero-both":
+            ia["E"] = 0.0
+            ib["E"] = 0.0
+            sets = [[0, 1, 4], [2, 3, 4]]
+        elif kind == "disjoint-with-zeros":
+            ia["E"] = 0.0
+            ib["F"] = 0.0
+            sets = [[0, 1, 4], [2, 3, 5]]
+        a = PreferenceInterval(ia)
+        b = PreferenceInterval(ib)
         d = {"props-1e-7": 1e-7, "props-1e-10": 1e-10}.get(kind, 0.0) * case["sign"]
         props = [0.7 + d, 0.3]
         out = run_impl(lambda: combine_preference_intervals([a, b], props))
         verdict(out[0], out[1] if out[0] == "exn" else None, out[2] if out[0] == "exn" else "")
-        req = {"op": "combine_check", "cand_sets": [[0, 1], [2, 0 if kind == "overlap" else 3]],
+        req = {"op": "combine_check", "cand_sets": sets,
                "prop_sum8": rat(Fraction(round(sum(props), 8)))}
         expect = {"exn": out[1]} if out[0] == "exn" else {"ok": None}
         return {"req": req, "expect": expect, "monitors": monitors, "tags": tags}
